@@ -5,8 +5,12 @@ import sys
 import time
 
 VERIF = os.path.dirname(os.path.dirname(os.path.abspath(__file__)))
-EVID = os.path.join(VERIF, "evidence")
-REPLAY = os.path.join(VERIF, "replay")
+# evidence/ and replay/ describe /repo itself; a run pointed at another tree (VERIF_REPO, used only to try seeded
+# changes in a scratch worktree) writes them elsewhere
+_ALT = os.environ.get("VERIF_OUT_DIR") or (
+    os.path.join(os.environ["VERIF_REPO"], ".verif_out") if os.environ.get("VERIF_REPO", "/repo") != "/repo" else None)
+EVID = os.path.join(_ALT or VERIF, "evidence")
+REPLAY = os.path.join(_ALT or VERIF, "replay")
 KF_FILE = os.path.join(VERIF, "known_findings.json")
 
 
